@@ -387,11 +387,11 @@ var c08Runaway = []struct{ name, funcs, call string }{
 func c08Refusal(c *Case, shape int) {
 	sh := c08Runaway[shape]
 	var depths []int
-	hs := []int{0, 1, 10, 5000, -3000}
+	hs := []int{0, 1, 10, 5000, -900}
 	for _, h := range hs {
 		prog := fmt.Sprintf("%s function w(v) { return match (v) { 0 => 0, t => t } }\nBEGIN { for (i = 0; i < %d; i++) { w(i) } print \"go\"; %s }", sh.funcs, h, sh.call)
 		if h < 0 {
-			// history: one completed recursion 3000 deep (only calls that are still open may count)
+			// history: one completed recursion 900 deep - inside the depth every reading of the limit must allow (only calls that are still open may count)
 			prog = fmt.Sprintf("%s function deep(n) { if (n == 0) { return 0 } return deep(n - 1) + 1 }\nBEGIN { print deep(%d); print \"go\"; %s }", sh.funcs, -h, sh.call)
 		}
 		lib := RunLib(prog, nil, nil, RunOpts{Budget: 400000})
@@ -503,7 +503,7 @@ func c08Run(c *Case) {
 func init() {
 	register(&Prop{
 		ID: "C08", Level: "exploration",
-		Rule:          "sampled: programs with 1-4 generated functions (arity 0-4, called with too few / exact / too many arguments in every expression position, parameter reassignment, callee locals, global updates, container parameters with element stores, returns from loops and match blocks, nested calls) plus a recursion library (fact, fib, mutual even/odd, ackermann, sumto up to depth 900); after every call the caller prints its own state and probes every callee name with `is unknown`; trace vs reference model, plus the frame automaton M4 (depth at each rule start equals the baseline). Enumerated: 8 long-history programs over 10000 elements (thorough: up to 50000) whose result is compared with the model, and 5 runaway-recursion shapes whose refusal depth must be identical after 0/1/10/5000 completed calls and after one completed recursion 3000 deep. 25 programs (results computed by hand) in which argument names coincide with the callee's parameter names in another order (swap, rotate, through match bindings, globals, document fields) or match bindings are read after a recursive call through the same match returned (sums, tree walks, mutual recursion, nested matches). Non-trivial = >= 3 calls and an arity mismatch or recursion; long runs and probes count as non-trivial.",
+		Rule:          "sampled: programs with 1-4 generated functions (arity 0-4, called with too few / exact / too many arguments in every expression position, parameter reassignment, callee locals, global updates, container parameters with element stores, returns from loops and match blocks, nested calls) plus a recursion library (fact, fib, mutual even/odd, ackermann, sumto up to depth 900); after every call the caller prints its own state and probes every callee name with `is unknown`; trace vs reference model, plus the frame automaton M4 (depth at each rule start equals the baseline). Enumerated: 8 long-history programs over 10000 elements (thorough: up to 50000) whose result is compared with the model, and 5 runaway-recursion shapes whose refusal depth must be identical after 0/1/10/5000 completed calls and after one completed recursion 900 deep. 25 programs (results computed by hand) in which argument names coincide with the callee's parameter names in another order (swap, rotate, through match bindings, globals, document fields) or match bindings are read after a recursive call through the same match returned (sums, tree walks, mutual recursion, nested matches). Non-trivial = >= 3 calls and an arity mismatch or recursion; long runs and probes count as non-trivial.",
 		NumCases:      c08Cases,
 		Run:           c08Run,
 		MinConclusive: func(tier string) int { return 3000 },
